@@ -1258,6 +1258,17 @@ class Extractor:
         for r in refs:
             inner, k = re.subn(r'(?<![\w.>])' + re.escape(r) + r'\b', '(*%s)' % r, inner)
             rep['rules']['reference_use->deref'] = rep['rules'].get('reference_use->deref', 0) + k
+        # local references bound with 'auto &x = E;' become pointers: 'T *x__ref = &(E);', later uses '(*x__ref)'
+        # (a reference is an alias of the object E denotes at that point - and dangles when that object dies)
+        while True:
+            mref = re.search(r'\bauto\s*&\s*(\w+)\s*=\s*([^;{}]+);', inner)
+            if not mref:
+                break
+            nm, ex = mref.group(1), mref.group(2).strip()
+            head_ = inner[:mref.start()] + '__typeof__(%s) *%s__ref = &(%s);' % (ex, nm, ex)
+            tail_ = re.sub(r'(?<![\w.>])' + re.escape(nm) + r'\b(?!__ref)', '(*%s__ref)' % nm, inner[mref.end():])
+            inner = head_ + tail_
+            rep['rules']['auto_reference->pointer'] = rep['rules'].get('auto_reference->pointer', 0) + 1
         inner = apply_global_rules(inner, rep, promote_asserts=(a.get('asserts') == 'promote'))
         # textual inlining of single-return helper functions
         for spec in blk.inlines:
